@@ -13,7 +13,7 @@ from jv.props import common as C
 
 ID = "C15"
 LEVEL = "exploration"
-BUDGET = {"quick": 1000, "thorough": 16000}
+BUDGET = {"quick": 1800, "thorough": 24000}
 RULE = (
     "case = pipeline of 1-4 stages, each a generated small scenario (own submission groups, or none -> the "
     "pipeline's submitter params), given as config files or as auto-config commands (a recorded fake that writes the "
